@@ -384,7 +384,7 @@ func toTyped(v any, used map[string]bool, depth int) any {
 
 type viol struct {
 	entry, kind, class, exp, obs string
-	cs                          map[string]any
+	cs                           map[string]any
 }
 
 type checker struct {
@@ -846,6 +846,90 @@ func run(c *mon.Ctx) {
 		data := g.Tree(2 + r.Intn(3))
 		p := g.Path(1+r.Intn(5), jpspec.AllKinds, false)
 		ck.check(p, data, false)
+		if i%16 == 0 {
+			ck.walkAll(data)
+		}
+	}
+}
+
+// fromGen converts a scalar gen node to the simple value (containers are not expected here).
+func fromGen(v any) any {
+	switch t := v.(type) {
+	case gen.Int:
+		return int64(t)
+	case gen.Float:
+		return float64(t)
+	case gen.String:
+		return string(t)
+	case gen.Bool:
+		return bool(t)
+	}
+	return v
+}
+
+// walkAll: the package function jp.Walk must visit every node of the data exactly once with its normalized
+// path (all nodes, or the leaves only), on simple data and on the gen twin.
+func (ck *checker) walkAll(data any) {
+	c := ck.c
+	want := map[string]string{}
+	leaves := map[string]string{}
+	// paths are compared through jp's own normalized rendering of (Child/Nth) fragments, built here
+	var rec2 func(x jp.Expr, v any)
+	want, leaves = map[string]string{}, map[string]string{}
+	rec2 = func(x jp.Expr, v any) {
+		key := x.String()
+		switch t := v.(type) {
+		case []any:
+			want[key] = "array"
+			for i, e := range t {
+				rec2(append(append(jp.Expr{}, x...), jp.Nth(i)), e)
+			}
+		case map[string]any:
+			want[key] = "object"
+			for k, e := range t {
+				rec2(append(append(jp.Expr{}, x...), jp.Child(k)), e)
+			}
+		default:
+			want[key] = treegen.Show(v)
+			leaves[key] = treegen.Show(v)
+		}
+	}
+	rec2(jp.R(), data)
+	cs := map[string]any{"data": clip(treegen.Show(data))}
+	for _, variant := range []struct {
+		name       string
+		d          any
+		justLeaves bool
+		want       map[string]string
+	}{{"jp.Walk", data, false, want}, {"jp.Walk(justLeaves)", data, true, leaves}, {"jp.Walk(gen)", toGen(data), false, want}, {"jp.Walk(gen,justLeaves)", toGen(data), true, leaves}} {
+		got := map[string]string{}
+		dup := ""
+		pn := mon.Guard(func() {
+			jp.Walk(variant.d, func(path jp.Expr, value any) {
+				k := path.String()
+				if _, seen := got[k]; seen {
+					dup = k
+				}
+				switch value.(type) {
+				case []any, gen.Array:
+					got[k] = "array"
+				case map[string]any, gen.Object:
+					got[k] = "object"
+				default:
+					got[k] = treegen.Show(fromGen(value))
+				}
+			}, variant.justLeaves)
+		})
+		c.Eval(1)
+		c.Cover("eval:jp.Walk")
+		switch {
+		case pn != nil:
+			c.Violation(variant.name, "panic", mon.FaultClass(pn.Msg), cs, "every node visited", pn.String())
+		case dup != "":
+			c.Violation(variant.name, "node-visited-twice", "", cs, "each node once", dup)
+		case !reflect.DeepEqual(got, variant.want):
+			c.Violation(variant.name, "visits-differ", "", cs, clip(fmt.Sprint(variant.want)), clip(fmt.Sprint(got)))
+		}
 	}
 }
 
